@@ -49,7 +49,9 @@ PREFIXES = ['2001:db8::/64', 'fe80::/64', '::/64', 'ffff:ffff:ffff:ffff::/64',
             '::/0', '2001:db8:1:2::/63', '2001:db8::/10', 'fd00::/8', '2001:db8::', 'fe80::',
             '2001:db8:1:2:0:0:0:0/64', '2001:DB8::/64']
 OPEN_PREFIXES = ['2001:db8::/96', '2001:db8::/128', '2001:db8::ffff:0:0/112', '10.0.0.0/8',
-                 '2001:db8::1']
+                 '2001:db8::1', 'ffff:ffff:ffff:ffff:ffff:ffff:ffff:ffff',
+                 'ffff:ffff:ffff:ffff:ffff::/80', 'ffff:ffff:ffff:ffff:fff0::/76',
+                 'ffff:ffff:ffff:ffff:ffff:ffff:ffff:ffff/128']
 BAD_PREFIXES = ['10', '10.0', '10.0.0', '10.0.0.1', '192.168.1.1', 'xyz', '2001:db8::/129',
                 '2001:db8::/-1', 'g::/64', '2001:db8::/64/64']
 BAD_MACS = ['', 'zz:zz:zz:zz:zz:zz', '00:11:22:33:44', '00:11:22:33:44:55:66:77:88', 'mac',
@@ -140,6 +142,9 @@ def _hostport_case(vals, acc):
     for text, want in texts:
         try:
             got = netutils.parse_host_port(text, default_port=default)
+            pos = netutils.parse_host_port(text, default)        # the documented parameter order
+            if pos != got:
+                got = ('positional-call-differs', pos, got)
         except Exception as e:
             got = ('raises', type(e).__name__)
         if got != want or (isinstance(got, tuple) and len(got) == 2 and got[1] is not None and
